@@ -264,7 +264,12 @@ impl VM {
             match self.next() {
                 OpCode::Const => {
                     let idx = self.read_u16();
-                    let value = constants[idx as usize];
+                    let mut value = constants[idx as usize];
+                    // Strings can be modified in place, so every evaluation of a string literal has to yield
+                    // a string of its own (and not the one, shared, object from the constant pool)
+                    if value.tag() == Type::String {
+                        value = Object::string(value.as_str(), gc);
+                    }
                     self.push(value);
                 }
                 OpCode::SetGlobal => {
